@@ -95,7 +95,11 @@ def gen_ast(rng):
                                              '.byte ";"', '.cstr "6\\" nails"', ".byte ';'", '.asciiz "a\\\\"', '.cstr \'x"y\''])))
             continue
         if r < 0.36:
-            vals = [[rng.choice([str(rng.randrange(0, 256)), '$' + format(rng.randrange(0, 256), 'x')])] for _ in range(rng.randrange(1, 5))]
+            vals = [[rng.choice([str(rng.randrange(0, 256)), '$' + format(rng.randrange(0, 256), 'x'), "'" + rng.choice('aZ09~+') + "'",
+                                 "'" + rng.choice('bQ') + "'"])] for _ in range(rng.randrange(1, 5))]
+            if rng.random() < 0.3:
+                # a value list that begins with a character literal (blanks may follow it like any other value)
+                vals[0] = ["'" + rng.choice('kM7') + "'"]
             items.append(('data', rng.choice(['.byte', '.2byte']), vals))
             continue
         mn = rng.choice(['nop', 'q4', 'inr', 'nib', 'ldi', 'q12', 'tri', 'jmp', 'ldx', 'sel', 'mv2', 'lix', 'liy', 'bra', 'psh', 'ldq', 'ldn'])
